@@ -143,9 +143,29 @@ def run(tier, t0):
             okn = is_call(nm, 'Option::map') and is_call(nm[2], 'MinidumpThreadNames::get_name') and show(nm[2][2]).endswith('self.thread_names') and is_item_thread_id(nm[2][3])
             if not okn:
                 res.violation('C14.2', 'C14.2|thread_name', cl, cl.blocks[b]['t'].get('line'), 'CallStack.thread_name is not thread_names.get_name(<item thread id>).map(..): %s' % show(nm)[:200])
-        elif is_call(e, 'CallStack::with_info'):
-            if not is_item_thread_id(e[2]):
-                res.violation('C14.2', 'C14.2|thread_id|with_info', cl, cl.blocks[b]['t'].get('line'), 'CallStack::with_info is given %s, not the thread id of the mapped item' % show(cl.expand(e[2]))[:120])
+        elif is_call(e, 'CallStack::with_info') or (e[0] == 'var' and isinstance(e[2], int)):
+            # the placeholder of the skipped dump-writer thread: CallStack::with_info(<item id>, ..) - which leaves the name
+            # empty - followed by `stack.thread_name = thread_names.get_name(<item id>).map(..)`
+            named = False
+            wi = e
+            if e[0] == 'var':
+                l = e[2]
+                wi = None
+                for d in cl.defs.get(l, []):
+                    if d['kind'] == 'call' and is_call(cl.call_tree(d['term']), 'CallStack::with_info'):
+                        wi = cl.call_tree(d['term'])
+                    elif d['kind'] == 'part' and d.get('st') is not None and d['st']['k'] == 'assign' and show(cl.place_tree(d['st']['lhs'])).endswith('.thread_name'):
+                        nm = cl.expand(cl.rvalue_tree(d['st']['rv']))
+                        named = is_call(nm, 'Option::map') and is_call(nm[2], 'MinidumpThreadNames::get_name') and show(nm[2][2]).endswith('self.thread_names') and is_item_thread_id(nm[2][3])
+                    elif d['kind'] != 'arg':
+                        wi = wi if wi is not None else None
+            if wi is None or not is_call(wi, 'CallStack::with_info'):
+                res.violation('C14.2', 'C14.2|return-shape', cl, cl.line, 'the closure returns something other than a CallStack built for its item: %s' % show(e)[:160])
+            else:
+                if not is_item_thread_id(wi[2]):
+                    res.violation('C14.2', 'C14.2|thread_id|with_info', cl, cl.blocks[b]['t'].get('line'), 'CallStack::with_info is given %s, not the thread id of the mapped item' % show(cl.expand(wi[2]))[:120])
+                if not named:
+                    res.violation('C14.2', 'C14.2|thread_name|with_info', cl, cl.blocks[b]['t'].get('line'), 'the placeholder stack of the dump-writer thread is returned without thread_names.get_name(<item thread id>): that thread loses its name')
         else:
             res.violation('C14.2', 'C14.2|return-shape', cl, cl.line, 'the closure returns something other than a CallStack built for its item: %s' % show(e)[:160])
     res.rule('C14.2', n2, floor=2, note='every CallStack returned by the mapping closure carries the id (and the stream\'s name) of its own item')
@@ -428,6 +448,21 @@ def run(tier, t0):
                         res.violation('C14.5', 'C14.5|process_id|linux', body, None, 'without misc info process_id is %s, not linux_proc_status.map(|s| s.pid)' % e[:140])
                 elif e != '(adt std::option::Option::None)':
                     res.violation('C14.5', 'C14.5|process_create_time|none', body, None, 'without misc info process_create_time is %s' % e[:140])
+            elif nm == 'process_id' and re.match(r"^\(std::option::Option::or_else \(std::option::Option::and_then \(std::option::Option::as_ref self\.misc_info\) \(closure ([^) ]+)\)\) \(closure ([^) ]+) self\)\)$", e):
+                # misc_info.as_ref().and_then(|m| m.raw.process_id().cloned()).or_else(|| linux_proc_status.as_ref().map(|s| s.pid)):
+                # the misc-info pid when the stream carries one, else the Linux status pid
+                m5 = re.match(r"^\(std::option::Option::or_else \(std::option::Option::and_then \(std::option::Option::as_ref self\.misc_info\) \(closure ([^) ]+)\)\) \(closure ([^) ]+) self\)\)$", e)
+                g1, g2 = mp.fn(m5.group(1)), mp.fn(m5.group(2))
+                r1 = [show(g1.expand(t2)) for (_, _, t2) in ret_assigns(g1)] if g1 is not None else []
+                r2 = [show(g2.expand(t2)) for (_, _, t2) in ret_assigns(g2)] if g2 is not None else []
+                ok1 = len(r1) == 1 and 'RawMiscInfo::process_id' in r1[0] and 'misc_info' in r1[0]
+                ok2 = len(r2) == 1 and r2[0].startswith('(std::option::Option::map (std::option::Option::as_ref ') and 'linux_proc_status' in r2[0]
+                if ok2:
+                    g3 = mp.fn(r2[0].split('(closure ')[1].rstrip(')').split(' ')[0])
+                    ok2 = g3 is not None and all(show(g3.expand(t2)).endswith('.pid') for (_, _, t2) in ret_assigns(g3))
+                if not (ok1 and ok2):
+                    res.violation('C14.5', 'C14.5|process_id|combinator', body, None, 'process_id is not misc_info pid .or_else(linux status pid): %s / %s' % (r1, r2))
+                n5 += 1
             elif nm == 'process_create_time' and re.match(r"^\(std::option::Option::and_then \(std::option::Option::as_ref self\.misc_info\) \(closure ([^)]+)\)\)$", e):
                 # the combinator spelling of the same case split: misc_info.as_ref().and_then(|m| m.process_create_time())
                 g = mp.fn(re.match(r"^\(std::option::Option::and_then \(std::option::Option::as_ref self\.misc_info\) \(closure ([^)]+)\)\)$", e).group(1))
